@@ -11,7 +11,7 @@ def text_of(name):
     return open(os.path.join(vlib.ROOT, "corpus", "build", name + ".lalrpop")).read()
 
 
-def run_lalrpop(lal, args, cwd, fsize=None, env=None, timeout=120):
+def run_lalrpop(lal, args, cwd, fsize=None, env=None, timeout=1200):
     def pre():
         if fsize is not None:
             resource.setrlimit(resource.RLIMIT_FSIZE, (fsize, fsize))
